@@ -177,6 +177,17 @@ func createDashboard(req *CreateDashboardRequest, myid int64) (map[string]string
 }
 
 func toggleFavorite(id string, myid int64) (bool, error) {
+	// The dashboard must belong to this org
+	if !isDefaultDashboard(id) {
+		structure, err := readFolderStructure(myid)
+		if err != nil {
+			return false, fmt.Errorf("toggleFavorite: failed to read folder structure: %v", err)
+		}
+		if item, exists := structure.Items[id]; !exists || item.Type != ItemTypeDashboard {
+			return false, errors.New("toggleFavorite: dashboard not found")
+		}
+	}
+
 	// Load the dashboard JSON file
 	dashboardDetailsFname := getDashboardDetailsPath(id)
 
